@@ -1,6 +1,7 @@
 import Driver.Util
 import NixModel.Pure.DataView
-open Lean Nix Nix.Py Nix.NdIndex Nix.DataView
+import NixModel.Pure.ViewData
+open Lean Nix Nix.Py Nix.NdIndex Nix.DataView Nix.ViewData
 
 /-!
 Line protocol of C06 (one JSON array per line):
@@ -14,7 +15,10 @@ Line protocol of C06 (one JSON array per line):
 * `["mkview",shape,slices]` (slices null | [null | [a,b]])   — `DataView(da, slices)`;
 * `["view",shape,positions,extents|null]`                    — `get_slice` (index mode);
 * `["view_read",shape,positions,extents,ix|null]`, `["view_write",…]` — through the view
-  (`ix = null` is `sl=None`: `_read_data()` / `write_direct`).
+  (`ix = null` is `sl=None`: `_read_data()` / `write_direct`);
+* `["view_data",shape,dims,positions,extents|null]`, `["view_data_read",shape,dims,positions,extents,ix|null]`
+  — `get_slice(…, DataSliceMode.Data)`; `dims` = list of `["sampled",offset|null,interval]` |
+  `["range",[ticks]]` | `["set"]`; numbers are integers or `"num/den"` strings (exact rationals).
 
 Selections are printed as `{"shape":[…],"idx":[C-order offsets in the parent, in result order]}`.
 -/
@@ -93,6 +97,43 @@ def optInts? (j : Json) : Option (Option (List Int)) :=
 def optIx? (j : Json) : Option (Option (List Ix)) :=
   if isNull j then some none else (ix? j).map some
 
+def parseRat (s : String) : Option Rat :=
+  match s.splitOn "/" with
+  | [n, d] =>
+    match n.toInt?, d.toNat? with
+    | some n, some d => if d = 0 then none else some ((n : Rat) / (d : Rat))
+    | _, _ => none
+  | [n] => n.toInt?.map fun n => (n : Rat)
+  | _ => none
+
+def jRat? (j : Json) : Option Rat :=
+  match j with
+  | .str s => parseRat s
+  | _ => (jInt? j).map fun i => (i : Rat)
+
+def rats? (j : Json) : Option (List Rat) :=
+  match j with
+  | .arr a => a.toList.mapM jRat?
+  | _ => none
+
+def optRats? (j : Json) : Option (Option (List Rat)) :=
+  if isNull j then some none else (rats? j).map some
+
+def dim? (j : Json) : Option DimDesc :=
+  match jArr j |>.toList with
+  | [Json.str "sampled", off, si] => do
+    let off ← if isNull off then some (0 : Rat) else jRat? off
+    let si ← jRat? si
+    pure (.sampled off si)
+  | [Json.str "range", ticks] => (rats? ticks).map DimDesc.range
+  | [Json.str "set"] => some .set
+  | _ => none
+
+def dims? (j : Json) : Option (List DimDesc) :=
+  match j with
+  | .arr a => a.toList.mapM dim?
+  | _ => none
+
 def handle (j : Json) : Json :=
   match jArr j |>.toList with
   | [Json.str "indices", s, len] =>
@@ -144,6 +185,20 @@ def handle (j : Json) : Json :=
       | .ok v => outSel shape false (viewWrite v ix)
       | .error e => err e
     | _, _, _, _ => bad "view_write: malformed"
+  | [Json.str "view_data", shape, dims, pos, ext] =>
+    match nats? shape, dims? dims, rats? pos, optRats? ext with
+    | some shape, some dims, some pos, some ext =>
+      match getSliceData shape dims pos ext with
+      | .ok v => ok (viewJson v)
+      | .error e => err e
+    | _, _, _, _ => bad "view_data: malformed"
+  | [Json.str "view_data_read", shape, dims, pos, ext, ix] =>
+    match nats? shape, dims? dims, rats? pos, optRats? ext, optIx? ix with
+    | some shape, some dims, some pos, some ext, some ix =>
+      match getSliceData shape dims pos ext with
+      | .ok v => outRead shape (viewRead v ix)
+      | .error e => err e
+    | _, _, _, _, _ => bad "view_data_read: malformed"
   | _ => bad "C06: unknown op"
 
 def main : IO Unit := pureLoop handle
